@@ -8,6 +8,14 @@
 //               tokens arrive (they take whatever the pool hands out), then all transfers are completed interleaved.
 //   sweepappend all blocks but the last have arrived; the last block's payload is read slowly (its goroutine holds the
 //               entry) while CheckExpirations runs far in the future; then the block completes.
+//   doabort     an application takes its request from the pool and uploads it block-wise through Do; while Do waits for the
+//               answer to the first block (the caller still holds the request, Do keeps it registered in the sending
+//               cache), the peer's answer makes the continuation fail: a 2.31 Continue without Block1 option
+//               (`noblock1`), a 2.31 whose Block1 lies far behind the body (`farblock`), a GET with Block2 under the
+//               same token (`getblock2`).  Other transfers then take what the pool hands out; then the call ends and the
+//               application looks at its request and releases it.  The request is the caller's all the time: the layer
+//               must not release it (the pool would Reset it and hand it to someone else) and the caller's own release
+//               must be the only one.
 // Judge: every body handed to the handler is exactly the body supplied under its token, once; no message is released
 // twice; no message is handed to the handler (or still referenced by a delivery) after it went back to the pool.
 // Output: `pool <scenario> result=<ok|violates-…>` in $VERIF_OUT; the lifecycle trace (one line per event,
@@ -39,6 +47,7 @@ type trackPool struct {
 	free    []*pool.Message
 	ids     map[*pool.Message]int
 	out     map[*pool.Message]bool // currently acquired
+	owned   map[*pool.Message]bool // acquired by the application itself, which has not released it yet
 	trace   []string
 	faults  []string
 	armed   bool
@@ -47,7 +56,7 @@ type trackPool struct {
 }
 
 func newTrackPool() *trackPool {
-	return &trackPool{ids: map[*pool.Message]int{}, out: map[*pool.Message]bool{}}
+	return &trackPool{ids: map[*pool.Message]int{}, out: map[*pool.Message]bool{}, owned: map[*pool.Message]bool{}}
 }
 
 func (p *trackPool) id(m *pool.Message) int {
@@ -101,10 +110,29 @@ func (p *trackPool) ReleaseMessage(m *pool.Message) {
 		p.faults = append(p.faults, fmt.Sprintf("message-%d-released-twice", p.id(m)))
 		return
 	}
+	if p.owned[m] {
+		p.faults = append(p.faults, fmt.Sprintf("message-%d-released-by-the-layer-while-its-owner-the-caller-of-Do-still-holds-it", p.id(m)))
+	}
 	// (a message the harness made itself — the response writer's first message — is adopted by the pool on its release)
 	delete(p.out, m)
 	m.Reset()
 	p.free = append(p.free, m)
+}
+
+// acquireOwned / releaseOwned: the application's own message (e.g. the request it passes to Do)
+func (p *trackPool) acquireOwned(ctx context.Context) *pool.Message {
+	m := p.AcquireMessage(ctx)
+	p.mu.Lock()
+	p.owned[m] = true
+	p.mu.Unlock()
+	return m
+}
+
+func (p *trackPool) releaseOwned(m *pool.Message) {
+	p.mu.Lock()
+	delete(p.owned, m)
+	p.mu.Unlock()
+	p.ReleaseMessage(m)
 }
 
 func (p *trackPool) delivered(m *pool.Message) {
@@ -117,8 +145,8 @@ func (p *trackPool) delivered(m *pool.Message) {
 }
 
 type poolScenario struct {
-	kind  string // racefirst | sweepappend
-	dir   string // up | down
+	kind  string // racefirst | sweepappend | doabort
+	dir   string // up | down; doabort: the answer that makes the continuation fail (noblock1 | farblock | getblock2)
 	nblk  int
 	other int // number of other tokens whose transfers run alongside
 }
@@ -150,7 +178,7 @@ func runPoolScenario(sc poolScenario, seed int) (string, []string) {
 			got[k] = append(got[k], append([]byte(nil), again...))
 		}
 		mu.Unlock()
-		if sc.dir == "up" {
+		if sc.dir == "up" || sc.kind == "doabort" {
 			_ = w.SetResponse(codes.Changed, message.TextPlain, nil)
 		}
 	}
@@ -197,6 +225,57 @@ func runPoolScenario(sc poolScenario, seed int) (string, []string) {
 		}()
 	}
 	switch sc.kind {
+	case "doabort":
+		req := tp.acquireOwned(ctx)
+		req.SetCode(codes.PUT)
+		req.SetToken(toks[0])
+		_ = req.SetPath("/c04/pool")
+		req.SetContentFormat(message.TextPlain)
+		req.SetBody(bytes.NewReader(bodies[0]))
+		started := make(chan struct{})
+		doDone := make(chan struct{})
+		go func() {
+			defer close(doDone)
+			_, _ = bw.Do(req, blockwise.SZX16, 1152, func(*pool.Message) (*pool.Message, error) {
+				close(started)
+				<-ctx.Done()
+				return nil, ctx.Err()
+			})
+		}()
+		<-started
+		ans := pool.NewMessage(context.Background())
+		ans.SetToken(toks[0])
+		switch sc.dir {
+		case "noblock1":
+			ans.SetCode(codes.Continue)
+		case "farblock":
+			ans.SetCode(codes.Continue)
+			v, _ := blockwise.EncodeBlockOption(blockwise.SZX16, 70000, true)
+			ans.SetOptionUint32(message.Block1, v)
+		default:
+			ans.SetCode(codes.GET)
+			v, _ := blockwise.EncodeBlockOption(blockwise.SZX16, 1, false)
+			ans.SetOptionUint32(message.Block2, v)
+		}
+		spawn(func() { handle(ans) })
+		wg.Wait()
+		synctest.Wait()
+		// other transfers take what the pool hands out
+		for num := 0; num < sc.nblk; num++ {
+			for i := 1; i < ntok; i++ {
+				handle(guardBlock("up", toks[i], bodies[i], num, sc.nblk, "p", nil))
+			}
+		}
+		// the call ends (its context is cancelled); the application looks at its request and gives it back
+		cancel()
+		<-doDone
+		synctest.Wait()
+		if req.Code() != codes.PUT || !bytes.Equal(req.Token(), toks[0]) || !bytes.Equal(readBody(req), bodies[0]) {
+			tp.mu.Lock()
+			tp.faults = append(tp.faults, fmt.Sprintf("request-%d-of-the-caller-of-Do-was-reset-or-reused-while-the-caller-held-it", tp.id(req)))
+			tp.mu.Unlock()
+		}
+		tp.releaseOwned(req)
 	case "racefirst":
 		tp.arm()
 		spawn(func() { handle(blk(0, 0)) })
@@ -249,6 +328,9 @@ func runPoolScenario(sc poolScenario, seed int) (string, []string) {
 		return "violates-panic-" + panicked, trace
 	}
 	for i := range toks {
+		if sc.kind == "doabort" && i == 0 {
+			continue // the aborted upload of this side: nothing is delivered here
+		}
 		bs := got[string(toks[i])]
 		for _, b := range bs {
 			if !bytes.Equal(b, bodies[i]) {
@@ -294,8 +376,12 @@ func TestC04Pool(t *testing.T) {
 		defer tw.Flush()
 	}
 	only := os.Getenv("VERIF_SCENARIO")
-	for _, kind := range []string{"racefirst", "sweepappend"} {
-		for _, dir := range []string{"up", "down"} {
+	for _, kind := range []string{"racefirst", "sweepappend", "doabort"} {
+		dirs := []string{"up", "down"}
+		if kind == "doabort" {
+			dirs = []string{"noblock1", "farblock", "getblock2"}
+		}
+		for _, dir := range dirs {
 			for _, nblk := range []int{2, 3, 4} {
 				for _, other := range []int{0, 1, 3} {
 					sc := poolScenario{kind, dir, nblk, other}
